@@ -236,7 +236,9 @@ type harnessReport struct {
 	Outside     string                 `json:"outside,omitempty"`
 	Paths       int64                  `json:"paths"`
 	AssumedAway int64                  `json:"paths_assumed_away"`
-	Decisions   int64                  `json:"solver_decided_branches"`
+	Decisions   int64                  `json:"branch_decisions"`
+	DomainDec   int64                  `json:"decisions_settled_by_exact_finite_domain_tableau"`
+	PCChecks    int64                  `json:"completed_paths_with_path_condition_rechecked_by_smt"`
 	Forks       int64                  `json:"forks"`
 	Queries     int64                  `json:"queries"`
 	Sat         int64                  `json:"sat"`
@@ -331,7 +333,7 @@ func run() int {
 			problems = append(problems, fmt.Sprintf("%s: %v", h, err))
 			continue
 		}
-		rep := harnessReport{Name: h, Bounds: m.Bounds[*tierF], Outside: m.Outside, Paths: st.Paths, AssumedAway: st.AssumedAway, Decisions: st.Decisions,
+		rep := harnessReport{Name: h, Bounds: m.Bounds[*tierF], Outside: m.Outside, Paths: st.Paths, AssumedAway: st.AssumedAway, Decisions: st.Decisions, DomainDec: st.DomainDecided, PCChecks: st.PCChecks,
 			Forks: st.Forks, Queries: st.Queries, Sat: st.Sat, Unsat: st.Unsat, Unknown: st.Unknown, SolverS: st.SolverTime.Seconds(), Steps: st.Steps,
 			MaxPath: st.MaxPathSteps, Obligations: st.Obligations, Discharged: st.Discharged, Reach: st.Reach, BoundHits: st.BoundHits,
 			Unsupported: st.Unsupported, Stubs: st.Stubs, FindingsRaw: st.FindingCount, WallS: st.Wall.Seconds(), MaxInputs: st.MaxInputs}
@@ -341,7 +343,7 @@ func run() int {
 		}
 		reports = append(reports, rep)
 		states += st.Paths
-		transitions += st.Decisions
+		transitions += st.Decisions + st.Forks
 		obligations += st.Obligations
 		discharged += st.Discharged
 		totalQ += st.Queries
@@ -576,7 +578,7 @@ func run() int {
 			"samples":                       samples,
 			"obligations":                   obligations,
 			"discharged":                    discharged,
-			"explanation":                   "states = feasible paths completed by bounded symbolic execution of the SSA of /repo's current working tree; transitions = branch decisions settled by the SMT solver; obligations = assertion sites x paths, discharged = those the solver proved (unsat of PC and not assert) within the stated bounds",
+			"explanation":                   "states = feasible paths completed by bounded symbolic execution of the SSA of /repo's current working tree; transitions = edges of the explored decision tree (symbolic branch decisions settled by the solver or by the exact finite-domain tableau, plus the alternatives of structural choices); obligations = assertion sites x paths, discharged = those the solver proved (unsat of PC and not assert) within the stated bounds",
 			"functions_encoded":             fnList,
 			"stubs":                         stubs,
 			"harnesses":                     reports,
